@@ -30,6 +30,8 @@ type e1Space struct {
 	// Quirks lists deviant behaviours (known findings) the reference can emulate; a
 	// disagreement that disappears under exactly one of them gets that signature.
 	Quirks []string
+	// ExtraP is like Extra but also receives the printer (node positions).
+	ExtraP func(p *rj.Program, pr *rj.Printer, ref rj.Result, got rj.ImplResult) string
 	// Extra is an additional oracle run on conforming cases; "" = ok.
 	Extra func(p *rj.Program, ref rj.Result, got rj.ImplResult) string
 }
@@ -63,6 +65,9 @@ func e1One(s *e1Space, i int64, thorough bool) (p *rj.Program, src map[string]st
 	if s.Printer != nil {
 		pr = s.Printer(i)
 	}
+	if pr == nil {
+		pr = rj.NewPrinter()
+	}
 	src = rj.Render(p, pr)
 	ref = rj.Eval(p)
 	if ref.Unspec != "" {
@@ -76,6 +81,9 @@ func e1One(s *e1Space, i int64, thorough bool) (p *rj.Program, src map[string]st
 	why = rj.Compare(ref, got)
 	if why == "" && s.Extra != nil {
 		why = s.Extra(p, ref, got)
+	}
+	if why == "" && s.ExtraP != nil {
+		why = s.ExtraP(p, pr, ref, got)
 	}
 	return
 }
